@@ -94,6 +94,12 @@ CHECKS = {
             'positional prefix, through Cls(...) and make_unchecked, plus mapping/sequence data paths; TLC decides signature '
             'binding, per-argument conversion as from_data, defaults, fresh unshared factory products, exact set-record, '
             'verbatim storage, one hook run per instance, hook failure class per path.', 'section 7 C14'),
+    'C15': ('TLA+ naming rules (NameIns/NameOut over class and field spellings) generate 456 (thorough 864) class '
+            'configurations; each is written in Python as spelled, TLC-enumerated mappings/sequences (every input name, aliases, '
+            'duplicates, Python-name and output-name keys, unknown keys, missing fields, wrong lengths, str/bytes) replayed; '
+            'verdict/image, output layout and names (SerOK), re-parse and error-tree missing/extra/duplicate validated by TLC',
+            'Exhaustive over the decision table x naming configurations within the two/three-field class family.',
+            'section 7 C15'),
 }
 
 NOT_YET = 'check not built yet (work in progress; see DESIGN.md section 12 build order)'
